@@ -14,6 +14,11 @@ def run(chk):
     rnd = random.Random(chk.seed)
     # 1. per-constraint flags: ConstraintSem case table --------------------------------------------
     rows = run_.model_rows(chk, 4 if thorough else 3)
+    if not thorough:
+        # longer columns of the narrowest type: duplicates next to several nulls, longer runs of flags
+        seen = {json.dumps(r['col'], sort_keys=True) for r in rows}
+        rows += [r for r in run_.model_rows(chk, 5, name='MC_ConstraintSem_bool5', coltypes=('bool',))
+                 if json.dumps(r['col'], sort_keys=True) not in seen]
     if len(rows) < 1000:
         chk.machinery_error('vacuity: only %d columns in the case table' % len(rows))
     chk.coverage['columns'] = len(rows)
